@@ -28,7 +28,14 @@ def check(tier, replay=None):
     plist = engcheck.make_programs(rng, nprog)
     progs = {f"p{i}": p for i, p in enumerate(plist)}
     cases = []
+    for ci, (fn, c) in enumerate(core.corpus("C01")):
+        pid = f"c{ci}"
+        progs[pid] = eng.from_json(c["prog"])
+        for j, inp in enumerate(c["inputs"]):
+            inp = eng.from_json(inp); inst = f"{pid}_{j}"
+            cases.append(engcheck.Case(pid, inst, [f"eng new {inst} {pid}"] + engcheck.load_ops(inst, inp) + [f"eng run {inst}", f"eng dump {inst}", f"eng iters {inst}"], {"inp": inp}))
     for pid, p in progs.items():
+        if pid.startswith("c"): continue
         for j in range(ninp):
             inp = gen.gen_input(rng.fork(f"{pid}i{j}"), p)
             inst = f"{pid}_{j}"
